@@ -655,6 +655,10 @@ Lemma relclose_spec tol x y :
   @relclose R NumR tol x y = true <-> Rabs (x - y) <= tol * (1 + Rabs y).
 Proof. unfold relclose. rewrite !nabs_R. numR. apply Rleb_true. Qed.
 
+Lemma absrelclose_spec tol atol x y :
+  @absrelclose R NumR tol atol x y = true <-> Rabs (x - y) <= tol * (1 + Rabs y) + atol.
+Proof. unfold absrelclose. rewrite !nabs_R. numR. apply Rleb_true. Qed.
+
 Lemma keys_same_ordered k1 k2 : keys_same true k1 k2 = true -> k1 = k2.
 Proof.
   unfold keys_same. rewrite andb_true_iff. intros [H L]. apply Nat.eqb_eq in L.
@@ -668,13 +672,13 @@ Proof.
   - apply memb_In. now apply H2.
 Qed.
 
-Lemma table_close_spec tol (q : qtab R) (iq : nat -> nat -> R) :
-  table_close m tol q iq = true ->
+Lemma table_close_spec tol atol (q : qtab R) (iq : nat -> nat -> R) :
+  table_close m tol atol q iq = true ->
   forall s a, In s (qkeys q) -> In a (acts m s) ->
-    Rabs (iq s a - qval q s a) <= tol * (1 + Rabs (qval q s a)).
+    Rabs (iq s a - qval q s a) <= tol * (1 + Rabs (qval q s a)) + atol.
 Proof.
   unfold table_close. rewrite forallb_forall. intros H s a Hs Ha.
-  specialize (H s Hs). rewrite forallb_forall in H. specialize (H a Ha). now apply relclose_spec.
+  specialize (H s Hs). rewrite forallb_forall in H. specialize (H a Ha). now apply absrelclose_spec.
 Qed.
 Lemma policy_close_spec tol (q : qtab R) (ipol : nat -> nat -> R) :
   policy_close m tol q ipol = true ->
